@@ -671,6 +671,10 @@ class Network(BaseModel):  # pylint: disable=too-many-public-methods
             if self.routing.xy_id_offset is not None:
                 dest -= self.routing.xy_id_offset
             for i, addr_range in enumerate(ni.addr_range):
+                if addr_range.end > 2 ** self.routing.addr_width:
+                    raise ValueError(
+                        f"Address range {addr_range} of {ni.name} exceeds the "
+                        f"{self.routing.addr_width}-bit address space")
                 rule_name = ni.render_enum_name()
                 if addr_range.desc is not None:
                     rule_name += f"_{addr_range.desc}"
